@@ -7,7 +7,7 @@
 (* TieBug / Uninit select the code as pinned (TRUE) or repaired (FALSE).            *)
 EXTENDS RugeStuben, CoPatterns, TLC
 
-CONSTANTS N, Sym, Modes, EpsDens, TruncDens, TieBug, Uninit
+CONSTANTS N, Sym, Modes, EpsDens, TruncDens, TieBug, Uninit, K      \* K loop iterations of cfsplit per step
 VARIABLES A, eps, tr, pc, c0, s, out
 vars == <<A, eps, tr, pc, c0, s, out>>
 
@@ -18,7 +18,9 @@ Init == /\ A \in CoMasks(N, Sym) \X Modes
 Gen     == /\ pc = "gen" /\ pc' = "connect" /\ A' = CoMat(N, Sym, A[1], A[2]) /\ UNCHANGED <<eps, tr, c0, s, out>>
 Connect == /\ pc = "connect" /\ pc' = "split" /\ c0' = RSConnect(A, eps, Uninit) /\ s' = CFInit(A, c0')
            /\ UNCHANGED <<A, eps, tr, out>>
-Split   == /\ pc = "split" /\ ~s.done /\ s' = CFStep(A, c0, s) /\ UNCHANGED <<A, eps, tr, pc, c0, out>>
+RECURSIVE CFSteps(_, _)
+CFSteps(st, k) == IF k = 0 \/ st.done THEN st ELSE CFSteps(CFStep(A, c0, st), k - 1)
+Split   == /\ pc = "split" /\ ~s.done /\ s' = CFSteps(s, K) /\ UNCHANGED <<A, eps, tr, pc, c0, out>>
 Interp  == /\ pc = "split" /\ s.done /\ pc' = "done" /\ UNCHANGED <<A, eps, tr, c0, s>>
            /\ out' = IF s.oob THEN [oob |-> TRUE]
                      ELSE [oob |-> FALSE, t |-> RSInterp(A, c0.S, s.cf, tr, TieBug),
